@@ -2,7 +2,7 @@
 //! Exhaustive enumeration of raw values / channel triples against the documented bit layouts.
 use egmon::{jobj, main_with, rng::mix, Ctx, Run};
 use embedded_graphics::pixelcolor::{
-    raw::{RawData, RawU1, RawU16, RawU2, RawU24, RawU32, RawU4, RawU8, ToBytes},
+    raw::{BigEndianLsb0, DataOrder, LittleEndianMsb0, RawData, RawU1, RawU16, RawU2, RawU24, RawU32, RawU4, RawU8, ToBytes},
     *,
 };
 
@@ -338,6 +338,79 @@ fn raw_types(run: &Run) {
     });
 }
 
+/// Raw values as a display driver or image obtains them: `RawData::load` from packed bytes in both
+/// data orders. Whatever the neighbouring pixels and padding bits hold, the loaded value fits in
+/// BITS_PER_PIXEL bits and the colour made of it is the colour of its low bits (same value under
+/// `==`, `into_storage`, raw again).
+fn loaded_raw_values(run: &Run) {
+    fn one<C, O>(ctx: &mut Ctx, name: &'static str, buf: &[u8], used_mask: u32)
+    where
+        C: PixelColor + From<<C as PixelColor>::Raw> + Into<<C as PixelColor>::Raw> + IntoStorage + core::fmt::Debug,
+        <C::Raw as RawData>::Storage: Into<u32> + Copy,
+        <C as IntoStorage>::Storage: Into<u32>,
+        C::Raw: Copy,
+        O: DataOrder,
+    {
+        let bpp = <C::Raw as RawData>::BITS_PER_PIXEL;
+        let mask = if bpp == 32 { u32::MAX } else { (1u32 << bpp) - 1 };
+        let order = if O::IS_ALTERNATE_ORDER { "BigEndianLsb0" } else { "LittleEndianMsb0" };
+        for i in 0..(buf.len() * 8 / bpp) {
+            ctx.eval();
+            let case = || format!("{}: {}::load::<{}>({:02x?}, {})", name, core::any::type_name::<C::Raw>().rsplit("::").next().unwrap_or(""), order, buf, i);
+            let Some(raw) = <C::Raw as RawData>::load::<O>(buf, i) else {
+                ctx.violation(format!("{}|loaded-raw|{}|none-inside-buffer", name, order), case, String::new);
+                continue;
+            };
+            let v: u32 = raw.into_inner().into();
+            if v & !mask != 0 {
+                ctx.violation(format!("{}|loaded-raw|{}|does-not-fit-bits-per-pixel", name, order), case, || format!("into_inner() = {:#x}", v));
+                continue;
+            }
+            let c = C::from(raw);
+            let clean = C::from(<C::Raw as RawData>::from_u32(v & used_mask));
+            let st: u32 = c.into_storage().into();
+            let back: C::Raw = c.into();
+            let back_v: u32 = back.into_inner().into();
+            if c != clean || st != v & used_mask || back_v != v & used_mask || C::from(back) != c {
+                ctx.violation(format!("{}|loaded-raw|{}|colour-differs-from-colour-of-used-bits", name, order), case, || {
+                    format!("raw {:#x}: colour {:?} storage {:#x} raw again {:#x}; colour of the used bits {:?}", v, c, st, back_v, clean)
+                });
+            }
+            if v & used_mask != 0 && v & used_mask != used_mask {
+                ctx.nontrivial(mix(v as u64, bpp as u64 * 7 + O::IS_ALTERNATE_ORDER as u64));
+            }
+        }
+    }
+    let cases: u64 = run.tier(4096, 65536);
+    run.generate("raw-values-obtained-by-load", cases, false, 0.2, |ctx, idx, rng| {
+        // every two-byte buffer in the thorough tier (index = the buffer), a stride of them plus random ones in the quick tier
+        let two = if cases == 65536 { idx as u16 } else if idx < 2048 { (idx as u16).wrapping_mul(32).wrapping_add((idx >> 6) as u16) } else { rng.next_u32() as u16 };
+        let b2 = two.to_be_bytes();
+        macro_rules! both {
+            ($c:ty, $name:expr, $buf:expr, $used:expr) => {
+                one::<$c, LittleEndianMsb0>(ctx, $name, $buf, $used);
+                one::<$c, BigEndianLsb0>(ctx, $name, $buf, $used);
+            };
+        }
+        both!(BinaryColor, "BinaryColor", &b2, 1);
+        both!(Gray2, "Gray2", &b2, 3);
+        both!(Gray4, "Gray4", &b2, 15);
+        both!(Gray8, "Gray8", &b2, 0xFF);
+        both!(Rgb332, "Rgb332", &b2, 0xFF);
+        both!(Rgb444, "Rgb444", &b2, 0x0FFF);
+        both!(Rgb555, "Rgb555", &b2, 0x7FFF);
+        both!(Bgr555, "Bgr555", &b2, 0x7FFF);
+        both!(Rgb565, "Rgb565", &b2, 0xFFFF);
+        both!(Bgr565, "Bgr565", &b2, 0xFFFF);
+        let r = rng.next_u32().to_le_bytes();
+        let b6 = [b2[0], b2[1], r[0], r[1], r[2], r[3] | 0xFC];
+        both!(Rgb666, "Rgb666", &b6, 0x3FFFF);
+        both!(Bgr666, "Bgr666", &b6, 0x3FFFF);
+        both!(Rgb888, "Rgb888", &b6, 0xFF_FFFF);
+        both!(Bgr888, "Bgr888", &b6, 0xFF_FFFF);
+    });
+}
+
 fn main() {
     main_with("c12", "exploration", |run| {
         run.set_rule(
@@ -385,5 +458,6 @@ fn main() {
             }
         });
         raw_types(run);
+        loaded_raw_values(run);
     })
 }
